@@ -436,6 +436,7 @@ func TestVerif_C04_Histories(t *testing.T) {
 						}
 						for _, l := range w.toks[j].leases {
 							rr2 := w.tc.req(logical.UpdateOperation, "sys/leases/renew", w.tc.root, map[string]any{"lease_id": l.leaseID, "increment": 3600})
+							w.logf("renew of lease of revoked token %d -> %v", j, rr2)
 							if rr2.ok() && rr2.resp != nil && rr2.resp.Secret != nil && rr2.resp.Secret.TTL > 0 {
 								w.hub.mu.Lock()
 								w.hub.failRevoke = false
